@@ -212,6 +212,7 @@ pub fn run_c03(ctx: &mut Ctx) {
         let strat = (0..names.len(), any::<u64>(), any::<u16>(), crate::gen::pattern()).prop_map(move |(h, seed, l, pat)| hashes::ConfCase {
             hash: names[h].clone(),
             msg: crate::gen::Msg { seed, len: (l as usize) % (5 * blocks[h] + 1), pat },
+            cuts: if seed % 3 == 0 { vec![(seed >> 8) as u16] } else { Vec::new() },
         });
         let s2 = specs.clone();
         ctx.run(&format!("digest/{:?}", fam), n, strat, move |c, i| relabel(hashes::conf_check("digest", &s2, c, i), "api"));
@@ -241,6 +242,7 @@ pub fn run_c20(ctx: &mut Ctx) {
         let strat = (0..names.len(), any::<u64>(), any::<u16>(), crate::gen::pattern()).prop_map(move |(h, seed, l, pat)| hashes::ConfCase {
             hash: names[h].clone(),
             msg: crate::gen::Msg { seed, len: (l as usize) % (5 * blocks[h] + 1), pat },
+            cuts: if seed % 3 == 0 { vec![(seed >> 8) as u16] } else { Vec::new() },
         });
         let s2 = specs.clone();
         ctx.run(&format!("digest/{:?}", fam), n, strat, move |c, i| relabel(hashes::conf_check("digest", &s2, c, i), "features"));
